@@ -68,6 +68,7 @@ M0 == [cfg |-> [retries |-> 1, cap |-> 1, ttl |-> 1],
        sent |-> {},      \* <<party, plain>> the party really encrypted
        proved |-> {},    \* <<id, sock>> for which the holder of id's key took part
        wire |-> {},      \* <<key, n, bytes>> of the node's encrypted datagrams
+       bans |-> <<>>,    \* non-empty once op Bans has put its permanent / far-future / expired entries on the process-global ban list
        nto  |-> {},      \* <<n, to>>: nonce and destination of every datagram the node sent (a WHOAREYOU may only echo one of these from there)
        idns |-> {},      \* <<idn, bytes>>
        cnt  |-> <<>>,    \* one <<rid or nonce, key>> per transmission of a request datagram (retransmissions included)
@@ -158,7 +159,7 @@ MonStep(mm, e) ==
                                           ELSE IF Kind(e) = "AgeSessions" THEN [mm.idle[i] EXCEPT !.u = @ + In(e).units] ELSE mm.idle[i]]
       idle2 == idle1 \o SetToSeq({[key |-> k, u |-> 0] : k \in {k \in used : ~\E i \in 1..Len(mm.idle) : mm.idle[i].key = k}})
   IN [mm EXCEPT !.now = t, !.sub = sub3, !.ints = ints3, !.anon = anon1, !.ways = ways3, !.injs = inj1, !.sent = sent1, !.proved = proved1,
-                !.wire = wire1, !.nto = nto1, !.idns = idns1, !.hsof = hsof1, !.idle = idle2, !.cnt = cnt1]
+                !.wire = wire1, !.bans = IF Kind(e) = "Bans" THEN <<"set">> ELSE @, !.nto = nto1, !.idns = idns1, !.hsof = hsof1, !.idle = idle2, !.cnt = cnt1]
 
 \* ---- the property formulas, evaluated on the ledger before the step (mm), the step (e) and the ledger after it (m2)
 Count(S) == Cardinality(S)
@@ -229,6 +230,11 @@ MonViol(mm, m2, e) ==
   \cup (IF Kind(e) \in {"PeerMessage", "PeerHandshake"} /\ ~Unres(e) /\ "claim" \in DOMAIN In(e)
            /\ \E j \in Evs(e, "Established") : e.out[j].id # In(e).claim
         THEN {"C12.EstablishedForeign"} ELSE {})
+  \* ---------------- C18 (handler part): the periodic unban check removes expired bans only - a permanent ban and one whose time has
+  \* not come stay ("banned for at least the configured duration")
+  \cup (IF "bans" \in DOMAIN e /\ (mm.bans # <<>> \/ Kind(e) = "Bans")
+           /\ \E b \in {"ip:perm", "node:perm", "ip:future", "node:future"} : ~\E j \in 1..Len(e.bans) : e.bans[j] = b
+        THEN {"C18.UnbanTimer"} ELSE {})
   \* ---------------- C15 (handler part)
   \cup (IF Len(Get(e.snap, "sessions", <<>>)) > mm.cfg.cap THEN {"C15.Capacity"} ELSE {})
   \cup (IF \E i \in 1..Len(mm.idle) : mm.idle[i].u > mm.cfg.ttl /\
